@@ -99,7 +99,8 @@ def _unsync():
         if tti: props |= {"C06"}
         if "nocap" in name: props |= {"C17"}
         if op == "op_evict_lru" and "within" in name: props |= {"C03"}
-        tier = "thorough" if sym_time or "_n3_" in name or name in ("purge_both_two_of_three_w", "get0_ttl_on_deadline_realpurge", "get1_tti_realpurge", "contains1_max_dur_realpurge") else "quick"
+        QUICK_SYM = ("contains_n2_both_sym", "contains_n2_tti_sym", "get_hit0_n2_ttl_sym", "get_hit1_n2_tti_sym", "insert_upd0_n2_both_sym")
+        tier = "thorough" if (sym_time and name not in QUICK_SYM) or "_n3_" in name or name in ("purge_both_two_of_three_w", "get0_ttl_on_deadline_realpurge", "get1_tti_realpurge", "contains1_max_dur_realpurge") else "quick"
         prim = {"op_get": {"C01", "C12", "C14"}, "op_contains": {"C15"}, "op_iter": {"C16", "C15"},
                 "op_invalidate": {"C07"}, "op_invalidate_all": {"C07", "C10"}, "op_invalidate_if": {"C07", "C10"},
                 "op_evict_lru": {"C04", "C12"}, "op_evict_expired": {"C10", "C03", "C11"},
@@ -283,7 +284,7 @@ add("sync_builder.rs", "sync_builder_new_equals_max_capacity", {"C17"}, "quick",
 PROPS = {}
 QUICK_UNSYNC_CAP = 14
 # queries that the thinning must never drop (each is the only quick witness of some failure class)
-KEEP = {"insert_upd0_n2_w_oversize", "purge_tti_on_deadline_w", "insert_new_n2_w_overcap", "insert_new_ttl_full", "insert_new_tti_full",
+KEEP = {"contains_n2_both_sym", "contains_n2_tti_sym", "get_hit0_n2_ttl_sym", "get_hit1_n2_tti_sym", "insert_upd0_n2_both_sym", "insert_upd0_n2_w_oversize", "purge_tti_on_deadline_w", "insert_new_n2_w_overcap", "insert_new_ttl_full", "insert_new_tti_full",
         "invalidate1_ttl", "insert_new_n2_w_admit", "insert_upd0_n2_full", "insert_new_n2_w_no_prefix", "get0_ttl_on_deadline",
         "contains0_tti_1ns_before", "iter_max_dur", "insert_new_n2_full", "get_hit0_n2_full", "evict_lru_n2_grown", "get_hit1_n2_w_overcap"}
 def plan(prop, tier):
